@@ -80,7 +80,7 @@ def run(tier, seed):
     _, _, mm2 = validate(st, "selftest")
     chk.cov["selftest"] = {"corrupted_events": n, "rejected": len(mm2), "ok": len(mm2) >= 1}
     if not chk.cov["selftest"]["ok"]:
-        raise ToolError("self-test: a corrupted pixel was not rejected")
+        chk.selftest_failed("a corrupted pixel was not rejected")
     with open(first) as f:
         chk.sample([json.loads(next(f)) for _ in range(1)][0])
     chk.cov["traces_validated_against_impl"] = frames
